@@ -298,7 +298,7 @@ func TestVerifC10(t *testing.T) {
 	// ------------------------------------------------------------- fuzzing
 	nFuzz := 400
 	if verifThorough() {
-		nFuzz = 12000
+		nFuzz = 60000
 	}
 	mut := func(b []byte) []byte {
 		m := append([]byte{}, b...)
